@@ -109,8 +109,17 @@ def cached(fam, progs, tier, module, cap, pb):
     import checks
     chunk = checks.CHUNK if tier == "quick" else checks.CHUNK // 2
     if len(progs) > chunk:
-        parts = [cached(fam, progs[i:i + chunk], tier, module, cap, pb) for i in range(0, len(progs), chunk)]
-        return checks.merge_results(fam, parts)
+        parts = []
+        skipped = 0
+        for i in range(0, len(progs), chunk):
+            if parts and checks.DEADLINE[0] is not None and time.time() > checks.DEADLINE[0]:
+                skipped += len(progs[i:i + chunk])
+                continue
+            parts.append(cached(fam, progs[i:i + chunk], tier, module, cap, pb))
+        r = checks.merge_results(fam, parts)
+        if skipped:
+            r["summary"]["programs_skipped_time_box"] = skipped
+        return r
     return cached1(fam, progs, tier, module, cap, pb)
 
 
@@ -194,6 +203,8 @@ def finish(pid, tier, t0, stages_summ, problems, assume, module, extra=None, sam
 def run_c19(tier):
     t0 = time.time()
     vlib.build_wrap()
+    import checks as _checks
+    _checks.DEADLINE[0] = None if tier == "quick" else time.time() + float(os.environ.get("VERIF_THOROUGH_BUDGET_S", "2400"))
     cap = 3000 if tier == "quick" else 30000
     summ = []
     problems = []
@@ -303,6 +314,8 @@ def rand_probe(tier):
 def run_c20(tier):
     t0 = time.time()
     vlib.build_wrap()
+    import checks as _checks
+    _checks.DEADLINE[0] = None if tier == "quick" else time.time() + float(os.environ.get("VERIF_THOROUGH_BUDGET_S", "2400"))
     cap = 3000 if tier == "quick" else 30000
     from concurrent.futures import ThreadPoolExecutor
 
